@@ -3,6 +3,7 @@ import Mathlib.LinearAlgebra.Matrix.Hermitian
 import Mathlib.LinearAlgebra.UnitaryGroup
 import Mathlib.LinearAlgebra.Matrix.Kronecker
 import Mathlib.Data.Complex.Basic
+import Mathlib.Tactic.Linarith
 /-! Soundness of the maximal flag rules of C03 against the mathematics (Mathlib `IsHermitian`,
 `unitaryGroup`, `kronecker`), for complex matrices of every size. -/
 set_option linter.unusedSectionVars false
@@ -99,6 +100,40 @@ theorem mulRealH_iff (A : Matrix n n ℂ) (r : ℝ) (hr : r ≠ 0) :
 theorem mulRealH_sound (A : Matrix n n ℂ) (r : ℝ) (hr : r ≠ 0) (a b : Tri)
     (ha : Sound a A.IsHermitian) : Sound (maxRule .mulRealH a b) ((r : ℂ) • A).IsHermitian :=
   sound_iff (mulRealH_iff A r hr) ha
+
+/-- a real multiple of the identity is Hermitian -/
+theorem real_smul_one_isHermitian (r : ℝ) : ((r : ℂ) • (1 : Matrix n n ℂ)).IsHermitian := by
+  unfold IsHermitian
+  rw [conjTranspose_smul, conjTranspose_one]; simp
+
+theorem saddRealH_iff (A : Matrix n n ℂ) (r : ℝ) :
+    A.IsHermitian ↔ (A + (r : ℂ) • (1 : Matrix n n ℂ)).IsHermitian :=
+  ⟨fun h => h.add (real_smul_one_isHermitian r),
+   fun h => by simpa using h.sub (real_smul_one_isHermitian (n := n) r)⟩
+
+theorem saddRealH_sound (A : Matrix n n ℂ) (r : ℝ) (a b : Tri) (ha : Sound a A.IsHermitian) :
+    Sound (maxRule .saddRealH a b) (A + (r : ℂ) • (1 : Matrix n n ℂ)).IsHermitian :=
+  sound_iff (saddRealH_iff A r) ha
+
+/-- a multiple of the identity by a number that is not real is not Hermitian (on a space of
+dimension at least one) -/
+theorem imag_smul_one_not_isHermitian [Nonempty n] (z : ℂ) (hz : z.im ≠ 0) :
+    ¬ (z • (1 : Matrix n n ℂ)).IsHermitian := by
+  intro h
+  obtain ⟨i⟩ := ‹Nonempty n›
+  have := congrFun (congrFun h.eq i) i
+  have h2 := congrArg Complex.im this
+  simp [Matrix.smul_apply] at h2
+  exact hz (by linarith)
+
+theorem saddImagH_sound [Nonempty n] (A : Matrix n n ℂ) (z : ℂ) (hz : z.im ≠ 0) (a b : Tri)
+    (ha : Sound a A.IsHermitian) :
+    Sound (maxRule .saddImagH a b) (A + z • (1 : Matrix n n ℂ)).IsHermitian := by
+  rcases a with _ | _ | _ <;> simp only [maxRule] <;>
+    first
+    | exact sound_none _
+    | (apply sound_false; intro h
+       exact imag_smul_one_not_isHermitian z hz (by simpa using h.sub ha.of_true))
 
 theorem powH_sound (A : Matrix n n ℂ) (k : ℕ) (a b : Tri) (ha : Sound a A.IsHermitian) :
     Sound (maxRule .powH a b) (A ^ k).IsHermitian := by
